@@ -128,10 +128,11 @@ class RngStub:
     """The legacy global NumPy generator as a symbolic source: every draw is a fresh symbolic value in the
     documented range; seed(s) is recorded.  Only this API exists inside rebound code (C07 discipline)."""
 
-    def __init__(self, eng):
+    def __init__(self, eng, sym_ints=False):
         self.eng = eng
         self.state = ("unseeded",)
         self.draws = []
+        self.sym_ints = sym_ints   # randint returns symbolic integers (no forking) instead of enumerating values
 
     def seed(self, s=None):
         self.state = ("seeded", s)
@@ -190,6 +191,21 @@ class RngStub:
             low, high = 0, low
         lo, hi = int(low), int(high)
         self.draws.append(("randint", lo, hi, size))
+        if self.sym_ints:
+            import z3
+
+            def mk():
+                v = eng.fresh_int("rint")
+                if not eng.concrete:
+                    eng.assume(z3.And(v.e >= lo, v.e <= hi - 1))
+                return v
+            if size is None:
+                return mk()
+            shape = (size,) if isinstance(size, (int, np.integer)) else tuple(size)
+            out = np.empty(shape, dtype=object)
+            for idx in np.ndindex(shape):
+                out[idx] = mk()
+            return out.astype(int) if eng.concrete else out.view(SymArray)
         if size is None:
             return eng.choose_int("rint", lo, hi - 1)
         shape = (size,) if isinstance(size, (int, np.integer)) else tuple(size)
@@ -215,3 +231,29 @@ class RngStub:
         if arr is None:
             return np.array(perm)
         return arr[perm]
+
+
+_OPT_CACHE = {}
+
+
+def cached_options(D, user=None):
+    """a fresh copy of the real Options object for dimension D (files are parsed once per process)"""
+    import copy
+    key = (D, repr(sorted((user or {}).items(), key=str)))
+    if key not in _OPT_CACHE:
+        _OPT_CACHE[key] = load_options(D, user)
+    o = copy.copy(_OPT_CACHE[key])
+    o["useroptions"] = set(o["useroptions"])
+    return o
+
+
+class TargetFault(Exception):
+    """sentinel raised by the logger/target stub at a symbolic call position (C10)"""
+
+
+def col(vals, eng):
+    """(n,1) array of values"""
+    a = np.empty((len(vals), 1), dtype=object)
+    for i, v in enumerate(vals):
+        a[i, 0] = v
+    return a.astype(float) if eng.concrete else a.view(SymArray)
